@@ -138,7 +138,11 @@ func (q *ConvexHullQuery) CapBound() Cap {
 // adding to the query and call this method again.
 func (q *ConvexHullQuery) ConvexHull() *Loop {
 	c := q.CapBound()
-	if c.Height() >= 1 {
+	// The bounding cap of geometry that spans exactly a hemisphere can have a
+	// height slightly below 1 because of rounding (for example,
+	// CapFromCenterAngle(p, Pi/2).Height() is 1 - dblEpsilon), so allow for
+	// some error. (The C++ implementation uses the same margin.)
+	if c.Height() >= 1-10*dblEpsilon {
 		// The bounding cap is not convex. The current bounding cap
 		// implementation is not optimal, but nevertheless it is likely that the
 		// input geometry itself is not contained by any convex polygon. In any
